@@ -2,9 +2,10 @@
 # seedov.sh <seed-name> <check ids...>: like seedcheck.sh but leaves /repo untouched: the patched
 # files are copies supplied through VERIF_EXTRA_OVERLAY (usable while background runs read /repo).
 set -u
+V="${V:-/verif}"
 export GOFLAGS=-mod=mod GOPROXY=off
 name="$1"; shift
-dst="/verif/seeded/$name"
+dst="$V/seeded/$name"
 tmp="/dev/shm/seedov-$name"
 rm -rf "$tmp"; mkdir -p "$tmp"
 python3 - "$dst/patch.diff" "$tmp" <<'PY' || exit 2
@@ -33,13 +34,13 @@ echo "checks run against /repo $(git -C /repo log --format=%h -n1) + patch suppl
 for id in "$@"; do
   cmd=$(python3 -c "
 import json
-m=json.load(open('/verif/MANIFEST.json'))
+m=json.load(open('$V/MANIFEST.json'))
 c=[c for c in m['checks'] if c['property_id']=='$id']
 print(c[0]['quick_cmd'] if c else './check $id --tier quick')")
-  (cd /verif && VERIF_EXTRA_OVERLAY="$tmp/map.json" eval "$cmd") > "$dst/check-$id.log" 2>&1; rc=$?
+  (cd $V && VERIF_EXTRA_OVERLAY="$tmp/map.json" eval "$cmd") > "$dst/check-$id.log" 2>&1; rc=$?
   echo "check $id rc=$rc $(grep -c '^VIOLATION' "$dst/check-$id.log") violation line(s): $(grep -A1 '^VIOLATION' "$dst/check-$id.log" | grep key= | head -3 | cut -c1-160 | tr '\n' ';')" | tee -a "$log"
 done
 rm -rf "$tmp"
 # the runs above rewrote evidence files with what they saw on the seeded tree: put the committed ones back
-for id in "$@"; do git -C /verif checkout -q -- "evidence/${id:0:3}.json" 2>/dev/null; done
-git -C /verif checkout -q -- replays 2>/dev/null
+for id in "$@"; do git -C $V checkout -q -- "evidence/${id:0:3}.json" 2>/dev/null; done
+git -C $V checkout -q -- replays 2>/dev/null
